@@ -35,7 +35,10 @@ var c07Vocabulary = map[string][2]string{
 	"OrderedCollectionPage": {"OrderedCollectionPage", "collection"},
 }
 
-var c07Unknown = []string{"Foo", "note", "Objectx"}
+// names outside the vocabulary: plain, wrong case, and namespaced / prefixed / padded spellings of vocabulary names (a name is
+// its exact spelling; compact-IRI or absolute-IRI forms are other names)
+var c07Unknown = []string{"Foo", "note", "Objectx", "schema:Person", "toot:Note", "as:Note", "sec:Key", "otherns:Listen", "http://schema.org#Person",
+	"https://www.w3.org/ns/activitystreams#Note", " Note", "Note ", "NOTE", "Notes", "PropertyValue", "#Note", "Note#", "Person/", "Ar\u0131ive"}
 
 type c07Custom struct {
 	ap.Object
